@@ -42,7 +42,9 @@ RULE = ('cases: attribute sections of 1..6 vendor subsections x 0..5 file/sectio
         'minimal and padded uleb128, ELF32/64, both byte orders, section at varying offsets between non-zero filler, read '
         'eagerly (.subsections/.subsubsections) and nested (generators drained inside one another); byte-mutated sections '
         '(out of domain, model vs impl only); prel31 over all sign/size classes incl. bit26!=bit30; index images with every '
-        'entry kind, tables before and after the index; byte-code: every first byte x every operand byte, random instruction '
+        'entry kind, tables before and after the index; the section header table drawn before or after the section '
+        'bodies, trailing filler of 0..n bytes, so that every table form (and the index, and the attributes section) '
+        'also occurs with its last word being the last word of the file; byte-code: every first byte x every operand byte, random instruction '
         'lists with multi-byte uleb128 operands, raw byte strings. Histories: on sections of 1..4 subsections, call '
         'sequences of 3..16 operations over the section object and every object it hands out (start a walk with or '
         'without vendor/scope/tag limit, next, close, drop, num_*, list property, complete fresh walk, unrelated seek), '
@@ -68,12 +70,21 @@ def filler(n, salt):
     return bytes(((i * 37 + salt * 11 + 5) % 127) + 1 for i in range(n))   # non-zero, ASCII range
 
 
+SH_FIRST_BASE = 300     # with the section header table first, section bodies start at or after this offset
+
+
 def build_elf(le, cls, machine, secs, total):
-    """secs: list of (name, sh_type, offset, size).  Returns a bytearray of length >= total filled with non-zero
-    garbage, the ELF header at 0, and .shstrtab + the section header table appended; section contents are
-    patched in by the caller."""
+    """secs: list of (name, sh_type, offset, size).  Returns a bytearray filled with non-zero garbage, the ELF
+    header at 0; section contents are patched in by the caller.
+    total = n            : the image has n bytes of header + bodies + filler, then .shstrtab and the section header
+                           table are APPENDED (as linkers do: something always follows the last section body);
+    total = ['shfirst', n]: .shstrtab and the section header table come right after the ELF header, the bodies
+                           after them, and the file has exactly n bytes -- a body that ends at n ends at EOF."""
     e = '<' if le else '>'
     ehsize, shentsize = (52, 40) if cls == 32 else (64, 64)
+    sh_first = isinstance(total, list)
+    if sh_first:
+        total = total[1]
     img = bytearray(filler(max(total, ehsize), len(secs) + cls))
     names = b'\0'
     name_off = []
@@ -82,17 +93,29 @@ def build_elf(le, cls, machine, secs, total):
         names += name.encode() + b'\0'
     shstr_name = len(names)
     names += b'.shstrtab\0'
-    shstr_off = len(img)
-    img += names
-    img += filler(3, 7)
-    shoff = len(img)
+    nsecs = len(secs) + 2
+    if sh_first:
+        shstr_off = ehsize
+        shoff = ehsize + len(names) + 3
+        end = shoff + nsecs * shentsize
+        assert end <= SH_FIRST_BASE and all(off >= end for _, _, off, _ in secs) and len(img) >= end
+        img[shstr_off:shstr_off + len(names)] = names
+        table = bytearray()
+    else:
+        shstr_off = len(img)
+        img += names
+        img += filler(3, 7)
+        shoff = len(img)
+        table = img
     allsecs = [(0, 0, 0, 0)] + [(no, t, off, sz) for no, (_, t, off, sz) in zip(name_off, secs)] + \
               [(shstr_name, 3, shstr_off, len(names))]
     for no, t, off, sz in allsecs:
         if cls == 32:
-            img += struct.pack(e + '10I', no, t, 0, 0, off, sz, 0, 0, 1, 0)
+            table += struct.pack(e + '10I', no, t, 0, 0, off, sz, 0, 0, 1, 0)
         else:
-            img += struct.pack(e + 'IIQQQQIIQQ', no, t, 0, 0, off, sz, 0, 0, 1, 0)
+            table += struct.pack(e + 'IIQQQQIIQQ', no, t, 0, 0, off, sz, 0, 0, 1, 0)
+    if sh_first:
+        img[shoff:shoff + len(table)] = table
     ident = b'\x7fELF' + bytes([1 if cls == 32 else 2, 1 if le else 2, 1, 0]) + b'\0' * 8
     if cls == 32:
         hdr = ident + struct.pack(e + 'HHIIIIIHHHHHH', 2, machine, 1, 0, 0, shoff, 0, ehsize, 32, 0, shentsize,
@@ -102,6 +125,13 @@ def build_elf(le, cls, machine, secs, total):
                                   len(allsecs), len(allsecs) - 1)
     img[:len(hdr)] = hdr
     return img
+
+
+def rand_placement(rng):
+    """where the section header table goes and how much filler follows the last body:
+    'after' (linker style), 'first' with filler behind the bodies, 'eof' = first and NOTHING after the last body"""
+    r = rng.random()
+    return 'eof' if r < 0.25 else 'first' if r < 0.35 else 'after'
 
 
 # ------------------------------------------------------------------ generators
@@ -275,26 +305,32 @@ def rand_entry(rng, kind):
 EH_KINDS = ['cant', 'inline', 't0', 't12', 'gen', 'cidx', 'cinl', 'ctab', 'cmod']
 
 
-def rand_eh_image(rng, kinds):
-    """[le, exidx_off, entries(with table offsets), total] : tables are laid out before and after the index"""
+def rand_eh_image(rng, kinds, placement=None):
+    """[le, exidx_off, entries(with table offsets), total] : tables are laid out before and after the index;
+    total as build_elf takes it.  placement 'eof': the last table entry (or, without tables, the index) ends
+    with the last byte of the file."""
+    placement = placement or rand_placement(rng)
     le = rng.random() < 0.6
     ents = [rand_entry(rng, k) for k in kinds]
-    before = [i for i, (a, sz) in enumerate(ents) if sz and rng.random() < 0.5]
-    pos = 52 + rng.randint(0, 9)
+    tabled = [i for i, (a, sz) in enumerate(ents) if sz]
+    keep_after = rng.choice(tabled) if tabled and placement == 'eof' else None
+    before = [i for i in tabled if i != keep_after and rng.random() < 0.5]
+    pos = (52 if placement == 'after' else SH_FIRST_BASE) + rng.randint(0, 9)
     for i in before:
         pos += rng.choice([0, 0, 3, 4, 5])      # table entries need not be aligned for the reader
         ents[i][0][2] = pos
         pos += ents[i][1] + rng.choice([0, 4, 6])
     pos += rng.randint(0, 7)
     exidx_off = pos
-    pos += 8 * len(ents) + rng.choice([0, 1, 4, 8])
-    for i, (a, sz) in enumerate(ents):
-        if sz and i not in before:
-            pos += rng.choice([0, 0, 2, 4])
-            a[2] = pos
-            pos += sz + rng.choice([0, 4])
-    total = pos + rng.randint(0, 12)
-    return [le, exidx_off, [a for a, _ in ents], total]
+    after = [i for i in tabled if i not in before]
+    rng.shuffle(after)                          # any of them may be the last thing in the file
+    pos += 8 * len(ents) + (rng.choice([0, 1, 4, 8]) if after or placement != 'eof' else 0)
+    for k, i in enumerate(after):
+        pos += rng.choice([0, 0, 2, 4])
+        ents[i][0][2] = pos
+        pos += ents[i][1] + (0 if placement == 'eof' and k == len(after) - 1 else rng.choice([0, 4]))
+    total = pos + (0 if placement == 'eof' else rng.randint(0, 12))
+    return [le, exidx_off, [a for a, _ in ents], total if placement == 'after' else ['shfirst', total]]
 
 
 # ------------------------------------------------------------------ histories
@@ -518,7 +554,7 @@ def gen(ctx):
         sec = rand_section(rng, fl, rng.choice([1, 2, 2, 3, 3, 4]), [0, 1, 2, 2, 3], [0, 1, 2, 3, 5])
         hist = rand_attr_hist(rng, fl, sec, rng.choice([3, 4, 6, 8, 12, 16]))
         cases.append(('attr_hist', [fl, rng.random() < 0.5, rng.choice([32, 32, 64]), rng.choice([0, 1, 3, 16]),
-                                    rng.choice([0, 1, 5]), sec, hist]))
+                                    rand_post(rng, [0, 1, 5]), sec, hist]))
     # ---------------- histories on one EHABIInfo object, its entries and decoder objects
     for _ in range(150 * T):
         kinds = [rng.choice(EH_KINDS + ['inline', 't0', 't12', 't12']) for _ in range(rng.randint(1, 6))]
@@ -538,7 +574,7 @@ def gen(ctx):
         le = rng.random() < 0.5
         cls = rng.choice([32, 32, 64])
         pre = rng.choice([0, 1, 3, 7, 16, 100])
-        post = rng.choice([0, 1, 5, 32])
+        post = rand_post(rng, [0, 1, 5, 32])
         for mode in ('eager', 'nested'):
             cases.append(('attr', [fl, le, cls, pre, post, mode, sec]))
     # malformed stream: one byte of a valid section replaced / section size changed (out of domain)
@@ -558,6 +594,9 @@ def gen(ctx):
     for k in EH_KINDS:                       # every kind alone
         for _ in range(6 * T):
             img = rand_eh_image(rng, [k])
+            cases.append(('eh', img + [0]))
+        for _ in range(4 * T):               # ... and with its last word (table or index) being the last word of the file
+            img = rand_eh_image(rng, [k], 'eof')
             cases.append(('eh', img + [0]))
     for _ in range(60 * T):
         kinds = [rng.choice(EH_KINDS) for _ in range(rng.randint(2, 7))]
@@ -809,13 +848,25 @@ def norm_err(r):
 
 
 def attr_image(a, body):
+    """pre: filler between the headers and the section; post: n = n bytes of filler after the section, then the
+    section header table; ['shfirst', n] = section header table first, n bytes after the section, then EOF"""
     fl, le, cls, pre, post = a[0], a[1], a[2], a[3], a[4]
     ehsize = 52 if cls == 32 else 64
-    off = ehsize + pre
     name, machine = ('.ARM.attributes', 40) if fl == 'arm' else ('.riscv.attributes', 243)
-    img = build_elf(le, cls, machine, [(name, 0x70000003, off, len(body))], off + len(body) + post)
+    if isinstance(post, list):
+        off = SH_FIRST_BASE + pre
+        total = ['shfirst', off + len(body) + post[1]]
+    else:
+        off = ehsize + pre
+        total = off + len(body) + post
+    img = build_elf(le, cls, machine, [(name, 0x70000003, off, len(body))], total)
     img[off:off + len(body)] = body
     return img, name, off
+
+
+def rand_post(rng, choices):
+    p = rand_placement(rng)
+    return ['shfirst', 0] if p == 'eof' else ['shfirst', rng.choice(choices)] if p == 'first' else rng.choice(choices)
 
 
 def attr_shape(sec):
@@ -882,6 +933,7 @@ def evaluate(ctx, cases):
                 shoff = struct.unpack_from(e + 'I', img, 32)[0]
                 struct.pack_into(e + 'I', img, shoff + 40 + 20, sh_size)
             w = dict(img=img, name=name, wf=bool(wf), exp=exp, mode=a[5], shape=attr_shape(a[6]))
+            ctx.bump('attr_section_end', 'eof' if off + len(body) == len(img) else 'sh-table-first' if isinstance(a[4], list) else 'sh-table-after')
             reqs2.append(['attr_model', a[0], a[1], bytes(img), off, sh_size])
         elif kind == 'attr_hist':
             body, wf, exp = next(ans), next(ans), next(ans)
@@ -916,6 +968,11 @@ def evaluate(ctx, cases):
                     img[tbl:tbl + len(tab)] = tab
                 words.append(struct.unpack_from(('<' if le else '>') + 'II', bytes(idx)))
             w = dict(img=img, wf=bool(wf), exp=exp, tblspec=bool(tblspec), words=words, n=n, ent=ents[n] if n < len(ents) else None)
+            ctx.bump('eh_sh_table', 'first' if isinstance(total, list) else 'after-bodies')
+            if n < len(ents) and encs[n][2] and encs[n][1] + len(encs[n][2]) == len(img):
+                ctx.bump('eh_table_last_word_at_eof', ents[n][0] + ('/%d-extra-words' % len(ents[n][6]) if ents[n][0] == 't12' else ''))
+            elif n < len(ents) and not encs[n][2] and exidx_off + size == len(img):
+                ctx.bump('eh_index_last_word_at_eof', ents[n][0])
             reqs2.append(['eh_model', bytes(img), le, exidx_off, size, n])
         elif kind == 'bc':
             enc, wf, exp = next(ans), next(ans), next(ans)
